@@ -5,10 +5,10 @@ import gen_docs
 
 ID = "C05"
 LEVEL = "other"
-GEN = []
+GEN = ["RxGen", "UnicodeGen", "InlineGen", "BlockGen", "UtilGen", "NormalizeGen"]
 COQ = ["Props/C05.vo"]
 EXPLANATION = (
-    "Oracle-level decision with a small proved core. The token grammar (block vs inline position, raw xor children, no "
+    "PARTIAL proof + oracle. Proved on the block parser model (coq/Model/Block.v, tied by skeletons with constants, BlockGen and the token-tree correspondence run of this check), for every text: the children of a list are list items, list items occur nowhere else, and the children of quotes and list items are again well-formed block tokens at every depth (C05_block_tree_is_well_typed, an invariant carried through every handler and loop, no assumption on the patterns). The token grammar (block vs inline position, raw xor children, no "
     "left-over 'text', heading levels 1-6, list/list_item typing with integer start, link/image url, table arity and "
     "alignment, nesting bound, JSON-serialisability) is checked by an independent Python validator on the token lists "
     "produced with renderer=None for generated documents under core, every plugin and both directive styles. Coq part "
@@ -207,7 +207,8 @@ def check_doc(name, md, doc, fails):
 
 
 def correspondence(ctx):
-    return {"evaluations": 0, "disagreements": [], "note": "no executable model slice for this property yet"}
+    import corr_block
+    return corr_block.run(ctx, ctx.n(2000, 40000))
 
 
 def oracle(ctx, extra):
